@@ -247,10 +247,24 @@ class JGen(sg.Gen):
             self.hist.append((rng.choice([wg.D, wg.ED]), [h]))
             self.kill(h)
         self.hist.append((wg.M, []))
+        stale = [h for h in self.dead[-3:]]
         for _ in range(rng.randint(1, 3)):
             self.hist.append((wg.C, self.comps(3)))
             self.hot.append(self.nh)
             self.created(1)
+        # the stale handles looked up at once through lending joins: with members that bound the join, and with
+        # optional / negated members only (nothing but the aliveness test stands between the handle and the successor)
+        for h in stale:
+            if rng.random() < 0.6 and self.regs:
+                sids = rng.sample(self.regs, min(len(self.regs), rng.randint(1, 3)))
+                if rng.random() < 0.5:
+                    members = [[M_MAYBE, M_READ, sid] for sid in sids]
+                else:
+                    members = [[M_READ, sids[0]]] + [[M_MAYBE, M_READ, sid] for sid in sids[1:]]
+                if rng.random() < 0.3:
+                    members.append([M_MAYBE, M_ENTS])
+                flat = [x for m in members for x in m]
+                self.hist.append((JOIN, [K_GET, h, len(members)] + flat))
 
     def fresh_round(self):
         """entities created through the shared Entities resource (alive, but not merged until the next maintain),
